@@ -1,9 +1,10 @@
 (* Property C15: calculated structure factors obey symmetry; direct and FFT routes agree.
    What is proved: the algebra of the direct sum over all symmetry images, for every group of the table
-   regenerated from /repo. The equality of gemmi's floating-point sum with the textbook sum, Friedel's
-   law, absences and the direct-vs-FFT agreement are decided by oracles on the implementation. *)
+   regenerated from /repo: the symmetry law (isotropic and anisotropic weights), and its consequences - systematic
+   absences are zero, Friedel mates are conjugate. The equality of gemmi's floating-point sum with the textbook sum
+   and the direct-vs-FFT agreement are decided by oracles on the implementation. *)
 From Coq Require Import Permutation.
-From GV Require Import Sym.SgCheck Sym.AsuDefs Sfc.SfSym Sfc.SfTable.
+From GV Require Import Sym.SgCheck Sym.AsuDefs Sfc.SfSym Sfc.SfTable Sfc.SfAniso Sfc.SfConseq.
 Local Open Scope Z_scope.
 
 (* F(hR) = F(h) exp(-2 pi i h.t): for every tabulated group, every rotation part R of it, every hkl,
@@ -33,3 +34,51 @@ Theorem C15_aniso_image_identity : forall (u r : m33) (h : v3),
   quad u (mat_vec_raw (transpose r) h) = quad (mat_mul_raw (mat_mul_raw r u) (transpose r)) h.
 Proof. exact aniso_image_identity. Qed.
 Print Assumptions C15_aniso_image_identity.
+
+(* The same law when the weight of an image depends on the image through the index rotated into its frame - the
+   ANISOTROPIC Debye-Waller factor dwf_aniso(site, image.mat.left_multiply(hkl)) of calculate_sf_from_atom_sf - for
+   every weight function wt of rot(g)^T h *)
+Theorem C15_sf_symmetry_aniso :
+  forall (C : Type) (c0 : C) (cadd cmul : C -> C -> C) (d : Z) (e : Z -> C),
+  (forall a b, cadd a b = cadd b a) -> (forall a b c, cadd a (cadd b c) = cadd (cadd a b) c) ->
+  (forall a b, cmul a b = cmul b a) -> (forall a b c, cmul a (cmul b c) = cmul (cmul a b) c) ->
+  (forall a b c, cmul a (cadd b c) = cadd (cmul a b) (cmul a c)) -> (forall a, cmul a c0 = c0) ->
+  (forall a b, e (a + b) = cmul (e a) (e b)) -> (forall a k, e (a + 24 * d * k) = e a) ->
+  forall (wt : v3 -> C) r g R, In r sg_table -> operations r = HOk g -> In R (sym_ops g) ->
+  forall h X,
+    sf_sum_g C c0 cadd cmul d e wt (apply_to_hkl R h) (all_ops g) X
+    = cmul (e (- (dot h (tran R) * d))) (sf_sum_g C c0 cadd cmul d e wt h (all_ops g) X).
+Proof. exact table_sf_symmetry_aniso. Qed.
+Print Assumptions C15_sf_symmetry_aniso.
+
+(* SYSTEMATICALLY ABSENT REFLECTIONS ARE ZERO: every tabulated group, every reflection that the library's
+   is_systematically_absent flags (model proved equal to the definition in C05), every atom position X/d, every
+   weight; C is any commutative ring where x = a x forces a = 1 or x = 0 (a field), e a faithful character *)
+Theorem C15_absent_reflections_zero :
+  forall (C : Type) (c0 c1 : C) (cadd cmul : C -> C -> C) (d : Z) (e : Z -> C),
+  (forall a b, cadd a b = cadd b a) -> (forall a b c, cadd a (cadd b c) = cadd (cadd a b) c) ->
+  (forall a b, cmul a b = cmul b a) -> (forall a b c, cmul a (cmul b c) = cmul (cmul a b) c) ->
+  (forall a b c, cmul a (cadd b c) = cadd (cmul a b) (cmul a c)) -> (forall a, cmul a c0 = c0) ->
+  (forall a b, e (a + b) = cmul (e a) (e b)) -> (forall a k, e (a + 24 * d * k) = e a) ->
+  0 < d -> (forall a x, cmul a x = x -> a = c1 \/ x = c0) -> (forall n, e n = c1 -> exists k, n = 24 * d * k) ->
+  forall r g, In r sg_table -> operations r = HOk g ->
+  forall w h X, is_systematically_absent g h = true -> sf_sum C c0 cadd cmul d e w h (all_ops g) X = c0.
+Proof. exact absent_reflections_zero. Qed.
+Print Assumptions C15_absent_reflections_zero.
+
+(* FRIEDEL: with a real weight (no anomalous term) F(-h) is the conjugate of F(h), for any list of operations *)
+Theorem C15_friedel_conjugate :
+  forall (C : Type) (c0 : C) (cadd cmul : C -> C -> C) (d : Z) (e : Z -> C) (conj : C -> C),
+  (forall a b, conj (cadd a b) = cadd (conj a) (conj b)) -> (forall a b, conj (cmul a b) = cmul (conj a) (conj b)) ->
+  conj c0 = c0 -> (forall n, conj (e n) = e (- n)) ->
+  forall w, conj w = w -> forall h G X,
+  sf_sum C c0 cadd cmul d e w (neg_v3 h) G X = conj (sf_sum C c0 cadd cmul d e w h G X).
+Proof. intros C c0 cadd cmul d e conj. exact (friedel_conjugate C c0 cadd cmul d e conj). Qed.
+Print Assumptions C15_friedel_conjugate.
+
+(* non-vacuity of the premise: the 6th row of the table (P 1 21 1) flags 0 1 0 and does not flag 0 2 0 *)
+Theorem C15_absent_premise_example :
+  exists r g, nth_error sg_table 5 = Some r /\ operations r = HOk g /\
+    is_systematically_absent g (0, 1, 0) = true /\ is_systematically_absent g (0, 2, 0) = false.
+Proof. eexists. eexists. split; [reflexivity|]. split; [vm_compute; reflexivity|]. split; vm_compute; reflexivity. Qed.
+Print Assumptions C15_absent_premise_example.
